@@ -18,6 +18,7 @@ pub mod c13;
 pub mod c14;
 pub mod c15;
 pub mod c16;
+pub mod c17;
 pub mod c18;
 pub mod c19;
 pub mod c20;
@@ -125,6 +126,13 @@ pub static PROPS: &[PropDef] = &[
         level: "exploration",
         run: c16::run,
         replay: c16::replay,
+        workers: w16,
+    },
+    PropDef {
+        id: "C17",
+        level: "exploration",
+        run: c17::run,
+        replay: c17::replay,
         workers: w16,
     },
     PropDef {
